@@ -35,6 +35,8 @@ void jcsa_use_patch(jsoncons::json& j, const jsoncons::json& cj, jsoncons::ojson
     jsonpointer::json_pointer ptr(p);
     jsonpointer::json_pointer ptr2 = jsonpointer::json_pointer::parse(p, ec);
     std::string s = ptr.to_string();
+    std::string esc1 = jsonpointer::escape<char>(jsoncons::string_view(p));
+    std::string esc2 = jsonpointer::escape_string<char>(p);
     ojson& o1 = jsonpointer::get(oj, p);
     jsonpointer::add(oj, p, ojson(1), ec);
     jsonpointer::remove(oj, p, ec);
